@@ -244,6 +244,23 @@ def histories(tier):
 
     hs.append(H("destination_in_subdirectory", subdir_plain))
 
+    def destination_is_a_directory(d):
+        # the destination names an existing directory (with and without a trailing separator): the save must fail
+        # and leave nothing behind
+        os.makedirs(os.path.join(d, "weights"))
+        with open(os.path.join(d, "weights", "neighbour.bin"), "wb") as f:
+            f.write(b"neighbour")
+        m, kw, info = fresh(d)
+        return m, dict(kw, external_data="weights" + os.sep), dict(info, natural="raises")
+
+    hs.append(H("destination_is_an_existing_directory_with_trailing_separator", destination_is_a_directory, natural_exc=Exception))
+
+    def destination_is_a_directory2(d):
+        m, kw, info = destination_is_a_directory(d)
+        return m, dict(kw, external_data="weights"), info
+
+    hs.append(H("destination_is_an_existing_directory", destination_is_a_directory2, natural_exc=Exception))
+
     def subdir_sharded(d):
         os.makedirs(os.path.join(d, "weights"))
         with open(os.path.join(d, "weights", "neighbour.bin"), "wb") as f:
